@@ -28,6 +28,7 @@ insert() lets the index repeat a position.
 Round 6: both bisects used and the chunk at the position compared with neither neighbour.
 Round 7: appending at the end of the begins list is the sorted slot when the path knows that the
 position is not below the last begin.
+Round 8: extend inserts chunk by chunk; successors walked in a loop must not let empty ones through.
 """
 import ast
 
